@@ -21,22 +21,20 @@ from .gitsim import Sim, parse_note, REALGIT
 GEN_FILES = []
 DRIVERS = ["stats"]
 THEOREMS = ["C19_accepted_le_added", "C19_human_plus_accepted_eq_added", "C19_ai_eq_accepted_plus_mixed",
-            "C19_ai_le_added", "C19_accepted_is_intersection", "C19_tool_accepted_sums",
-            "C19_tool_mixed_sums_when_uncapped", "C19_tool_totals_sum", "C19_added_deleted_passthrough",
-            "C19_merge_accepted_zero",
-            "C19_numstat_totals", "C19_tool_mixed_refuted", "C19_overlap_double_count_refuted",
-            "C19_duplicate_section_refuted", "C19_missing_prompt_refuted", "C19_overflow_refuted",
-            "C19_nonvacuous"]
+            "C19_ai_le_added", "C19_accepted_is_intersection", "C19_tool_accepted_sums", "C19_tool_mixed_sums",
+            "C19_tool_ai_sums", "C19_tool_totals_sum", "C19_added_deleted_passthrough", "C19_merge_accepted_zero",
+            "C19_never_panics", "C19_numstat_totals", "C19_numstat_never_panics", "C19_regressions",
+            "C19_missing_prompt_refuted", "C19_nonvacuous"]
 CLAIM = {
     "text": "Machine-checked proof (Coq 8.16.1) over an executable Gallina model of stats.rs (overlap by binary "
-            "search, accepted lines from attestations, stats_from_authorship_log with its u32 arithmetic in both "
-            "overflow modes, the numstat loop, the ignore/sort/dedup glue): for ALL inputs, accepted <= added, "
-            "human + accepted = added, ai = accepted + mixed <= added, accepted = |note AI lines /\\ added lines| and "
-            "the per-tool accepted / generated / deleted counters sum to the totals, under the exact hypotheses "
-            "note_disjoint, note_paths_unique, note_prompts_present (what a well-formed note satisfies) and "
-            "numstat = number of added lines of the diff; each hypothesis is shown necessary by a refutation "
-            "theorem; the per-tool mixed / ai_additions do NOT sum to the totals when the cap of the total fires "
-            "(C19_tool_mixed_refuted, known class Known_C19).",
+            "search, accepted lines from attestations with each added line counted once, stats_from_authorship_log with "
+            "its saturating counters, the tool-by-tool cap of mixed_additions in BTreeMap order, the numstat loop, the "
+            "ignore/sort/dedup glue; the remaining plain u32 additions in both overflow modes): for ALL notes and diffs, "
+            "accepted <= added, human + accepted = added, ai = accepted + mixed <= added, accepted = cardinality of the "
+            "set of added lines the note attributes to AI, the per-tool mixed / accepted / ai / generated / deleted "
+            "counters sum to the totals, no per-tool ai_additions exceeds added, and nothing overflows, under the "
+            "hypotheses: numstat = number of added lines of the diff (a u32), and for the per-tool accepted / ai sums "
+            "note_prompts_present; the latter is shown necessary (C19_missing_prompt_refuted, open finding C19-K3).",
     "design_ref": "DESIGN.md §4 C19",
     "note": "Trusted: Coq kernel; ExtrOcamlBasic extraction + driver; harness; gitsim. Environment hypotheses monitored on "
             "every generated commit: numstat total = added lines of git diff -U0 (non-ignored files); every real note "
@@ -60,8 +58,8 @@ TRUSTED_BASE = [
 ASSUMPTIONS = [
     "git show --numstat (non-ignored files) reports as added exactly the number of '+' lines of git diff -U0 against the "
     "first parent (monitored on every generated commit)",
-    "notes written by git-ai satisfy note_ok: per file the listed ranges are pairwise disjoint, one section per file, a "
-    "prompt record for every session hash (monitored on every generated commit; this is property C05)",
+    "notes written by git-ai carry a prompt record for every session hash (monitored on every generated commit, "
+    "together with the rest of note_ok, which the theorems no longer need; this is property C05)",
     "the overflow behaviour of `+` on u32 is either panic (overflow checks on) or wrap-around",
 ]
 
@@ -360,47 +358,45 @@ def check_stats_case(c, res, ignored):
     facts = {"disjoint": disjoint, "unique": unique, "present": present, "inter": inter, "agree": agree,
              "sum_ov": sum_ov}
     if res == "panic":
-        acc_hi = inter if (disjoint and unique) else U32
-        k4 = (sum_ov > U32 or sum(p[3] for p in prompts) > U32 or sum(p[4] for p in prompts) > U32
-              or any(v + acc_hi > U32 for v in by_tool_ov.values()))
-        facts["k4"] = k4
-        return [("panic", ["K4"] if k4 else [])], facts
+        # nothing may panic when the diff fits in a u32 (all generated diffs do)
+        return [("panic", [])], facts
     H, M, AI, ACC, TADD, TDEL, DEL, ADD, tools = res
     facts["cap"] = sum_ov > max(ga - ACC, 0)
     fails = []
     if ADD != ga or DEL != c["gd"]:
         fails.append(("added/deleted are not the numstat totals", []))
     if c["merge"] == 0 and ACC != inter:
-        fails.append(("accepted != |note AI lines /\\ added lines|", ["K2"] if not (disjoint and unique) else []))
+        fails.append(("accepted != |note AI lines /\\ added lines|", []))
+    if c["merge"] == 1 and ACC != 0:
+        fails.append(("accepted != 0 on a merge commit", []))
     if AI != ACC + M:
         fails.append(("ai_additions != accepted + mixed", []))
     if ga == agree or c["merge"] == 1:
-        k2 = ["K2"] if not (disjoint and unique) else []
         if ACC > ADD:
-            fails.append(("accepted > added", k2))
+            fails.append(("accepted > added", []))
         if H + ACC != ADD:
-            fails.append(("human + accepted != added", k2))
+            fails.append(("human + accepted != added", []))
         if AI > ADD:
-            fails.append(("ai_additions > added", k2))
+            fails.append(("ai_additions > added", []))
+        if present and any(t[1] > ADD for t in tools):
+            fails.append(("a tool's ai_additions > added", []))
+    k3 = ["K3"] if not present else []
     if sum(t[3] for t in tools) != ACC:
-        fails.append(("sum of per-tool accepted != accepted", ["K3"] if not present else []))
+        fails.append(("sum of per-tool accepted != accepted", k3))
     if sum(t[2] for t in tools) != M:
-        fails.append(("sum of per-tool mixed != mixed", ["K1"] if facts["cap"] else []))
+        fails.append(("sum of per-tool mixed != mixed", []))
     if sum(t[1] for t in tools) != AI:
-        fails.append(("sum of per-tool ai_additions != ai_additions",
-                      (["K1"] if facts["cap"] else []) + (["K3"] if not present else [])))
-    if sum(t[4] for t in tools) != TADD or sum(t[5] for t in tools) != TDEL:
+        fails.append(("sum of per-tool ai_additions != ai_additions", k3))
+    tadd, tdel = sum(p[3] for p in prompts), sum(p[4] for p in prompts)
+    if (TADD, TDEL) != (min(tadd, U32), min(tdel, U32)):
+        fails.append(("generated/deleted totals are not the (saturated) sums of the prompt records", []))
+    if tadd <= U32 and tdel <= U32 and (sum(t[4] for t in tools) != TADD or sum(t[5] for t in tools) != TDEL):
         fails.append(("sum of per-tool generated/deleted != totals", []))
     return fails, facts
 
 
 KNOWN_TEXT = {
-    "K1": "C19-K1 per-tool mixed_additions / ai_additions are not capped while the totals are "
-          "(sum of overriden_lines > added - accepted)",
-    "K2": "C19-K2 note outside note_ok: two sessions (or two sections) list the same line, so accepted lines are "
-          "counted twice",
     "K3": "C19-K3 a session hash without prompt record: its accepted lines are in no tool's breakdown",
-    "K4": "C19-K4 u32 overflow of the prompt counters (a build with overflow checks panics, a release build wraps)",
     "K5": "C19-K5 rename detected by git: git-ai counts `--no-renames` numstat, plain `git show --numstat` reports "
           "only the changed lines of the renamed file",
 }
@@ -789,9 +785,8 @@ def run(ctx):
             if mres != res:
                 mismatches.append((i, f"impl {str(res)[:120]} model {str(mres)[:120]} on {body_impl(c)[:200]}"))
             md = {x[0]: x[1] for x in C.sx_parse_many(mo) if isinstance(x, list) and len(x) == 2 and isinstance(x[0], str)}
-            want = {"noteok": int(facts["disjoint"] and facts["unique"] and facts["present"]), "addedcount": facts["agree"]}
-            if facts["unique"]:
-                want["inter"] = facts["inter"]      # the Coq definition sums per section
+            want = {"noteok": int(facts["disjoint"] and facts["unique"] and facts["present"]), "addedcount": facts["agree"],
+                    "inter": facts["inter"]}
             if res != "panic":
                 want["known"] = int(facts["cap"])
             for k, v in want.items():
@@ -885,13 +880,8 @@ def run(ctx):
             # oracle: totals of git's numstat minus ignored files (the rows are what was printed)
             ea = sum(a for a, d, p in rows if a is not None and p not in ign)
             ed = sum(d for a, d, p in rows if d is not None and p not in ign)
-            if ea > U32 or ed > U32:
-                if res != "panic":
-                    violations.append((f"numstat totals overflow u32 but no panic: {text!r}", {"kind": "numstat", "text": text}))
-                else:
-                    seen("K4", "numstat in-process")
-            elif res != (ea, ed):
-                violations.append((f"numstat totals {res} != ({ea}, {ed}) for {text!r} ignoring {ign}",
+            if res != (min(ea, U32), min(ed, U32)):
+                violations.append((f"numstat totals {res} != ({ea}, {ed}) (saturated) for {text!r} ignoring {ign}",
                                    {"kind": "numstat", "text": text, "ignored": ign, "impl": res}))
             if any(a is not None for a, _, _ in rows):
                 distinct.add(("ns", text, ps))
@@ -981,9 +971,9 @@ def run(ctx):
             if sum(t["ai_accepted"] for t in tools.values()) != st["ai_accepted"]:
                 fails.append(("sum of per-tool accepted != accepted", []))
             if sum(t["mixed_additions"] for t in tools.values()) != st["mixed_additions"]:
-                fails.append(("sum of per-tool mixed != mixed", ["K1"] if cap else []))
+                fails.append(("sum of per-tool mixed != mixed", []))
             if sum(t["ai_additions"] for t in tools.values()) != st["ai_additions"]:
-                fails.append(("sum of per-tool ai_additions != ai_additions", ["K1"] if cap else []))
+                fails.append(("sum of per-tool ai_additions != ai_additions", []))
             if sum(t["total_ai_additions"] for t in tools.values()) != st["total_ai_additions"] or \
                     sum(t["total_ai_deletions"] for t in tools.values()) != st["total_ai_deletions"]:
                 fails.append(("sum of per-tool generated/deleted != totals", []))
@@ -1033,27 +1023,26 @@ def run(ctx):
     # ---- known-class witnesses with the real binary
     wit = crafted_witnesses(ctx.scratch)
     k1, k2, k3, k4 = (wit.get(k, {"error": "missing"}) for k in ("K1", "K2", "K3", "K4"))
-    readable = not any("error" in w for w in (k1, k2, k3))
-    obligations.append(("witness:hand-written notes are read by git-ai stats", readable, "" if readable else str(wit)[:300]))
+    readable = not any("error" in w for w in (k1, k2, k3, k4))
+    obligations.append(("witness:hand-written notes are read by git-ai stats (no crash)", readable,
+                        "" if readable else str(wit)[:300]))
+    if not readable and "error" in k4 and not any("error" in w for w in (k1, k2, k3)):
+        violations.append(("regression C19-K4: git-ai stats fails on a note with overriden_lines = u32::MAX: "
+                           + str(k4)[:200], {"kind": "witness", "which": "K4", "stats": k4}))
     if readable:
-        t1 = k1.get("tool_model_breakdown", {})
-        if sum(t["mixed_additions"] for t in t1.values()) != k1.get("mixed_additions"):
-            seen("K1", "real binary on a hand-written note: per-tool mixed %d vs total %d"
-                 % (sum(t["mixed_additions"] for t in t1.values()), k1.get("mixed_additions")))
-        if k2.get("ai_accepted", 0) > k2.get("git_diff_added_lines", 0):
-            seen("K2", "real binary on a hand-written note: accepted %d > added %d"
-                 % (k2["ai_accepted"], k2["git_diff_added_lines"]))
-        t3 = k3.get("tool_model_breakdown", {})
-        if sum(t["ai_accepted"] for t in t3.values()) != k3.get("ai_accepted"):
+        def tsum(w, f):
+            return sum(t[f] for t in w.get("tool_model_breakdown", {}).values())
+        for name, w in (("K1", k1), ("K4", k4)):
+            if tsum(w, "mixed_additions") != w.get("mixed_additions") or tsum(w, "ai_additions") != w.get("ai_additions") \
+                    or any(t["ai_additions"] > w["git_diff_added_lines"] for t in w.get("tool_model_breakdown", {}).values()):
+                violations.append((f"regression C19-{name}: per-tool mixed / ai_additions do not add up to the totals on "
+                                   f"the hand-written note: {json.dumps(w)[:300]}", {"kind": "witness", "which": name, "stats": w}))
+        if k2.get("ai_accepted") != 1 or k2.get("human_additions") != 0 or k2.get("ai_additions") != 1:
+            violations.append((f"regression C19-K2: a line listed by two sessions is not counted once: {json.dumps(k2)[:300]}",
+                               {"kind": "witness", "which": "K2", "stats": k2}))
+        if tsum(k3, "ai_accepted") != k3.get("ai_accepted"):
             seen("K3", "real binary on a hand-written note: per-tool accepted %d vs total %d"
-                 % (sum(t["ai_accepted"] for t in t3.values()), k3.get("ai_accepted")))
-    if "error" in k4:
-        seen("K4", "real (debug) binary on a hand-written note with overriden_lines = u32::MAX: stats exits %s"
-             % k4.get("rc"))
-    else:
-        t4 = k4.get("tool_model_breakdown", {})
-        if any(t["ai_additions"] != t["ai_accepted"] + t["mixed_additions"] for t in t4.values()):
-            seen("K4", "real binary on a hand-written note: per-tool ai_additions != accepted + mixed")
+                 % (tsum(k3, "ai_accepted"), k3.get("ai_accepted")))
 
     ok_corr = not mismatches
     obligations.append(("tie:correspondence Model/Stats.v vs stats.rs (in-process, numstat, whole command)",
